@@ -122,6 +122,33 @@ static void adv_hook(const char* site)
   std::memcpy(g_adv_cell, g_adv_bytes, g_adv_len);
 }
 
+// an adversary that watches one scalar cell of sandbox memory (read notification hook of tainted_volatile):
+// the first read sees the honest value, the cell is rewritten before every later read
+static const volatile void* g_watch_cell = nullptr;
+static uint8_t g_watch_bytes[8];
+static size_t g_watch_len = 0;
+static unsigned g_watch_reads = 0;
+static void watch_hook(const volatile void* addr)
+{
+  if (addr != g_watch_cell) return;
+  if (g_watch_reads >= 1)
+    std::memcpy(const_cast<void*>(g_watch_cell), g_watch_bytes, g_watch_len);
+  g_watch_reads++;
+}
+template<typename N>
+static void watch_begin(const volatile void* cell, N evil)
+{
+  g_watch_cell = cell;
+  // the bytes the guest writes: the value in the guest's type of N (the generators keep it representable there)
+  using G = rlbox::detail::convert_to_sandbox_equivalent_t<N, Sbx>;
+  G g = static_cast<G>(evil);
+  std::memcpy(g_watch_bytes, &g, sizeof(g));
+  g_watch_len = sizeof(g);
+  g_watch_reads = 0;
+  rlbox::detail::verif_read_hook = watch_hook;
+}
+static void watch_end() { rlbox::detail::verif_read_hook = nullptr; g_watch_cell = nullptr; }
+
 
 // --------------------------------------------------------------------- C05
 #ifdef PART_ARITH
@@ -205,11 +232,16 @@ static std::string op_arith(const toks_t& t)
           *cell = n;  // may abort when n does not fit the guest type
           auto p = mkptr<T>(addr);
           const void* ret = nullptr;
-          if (t[2] == "add") ret = (p + *cell).UNSAFE_unverified();
-          else if (t[2] == "radd") ret = (*cell + p).UNSAFE_unverified();
-          else if (t[2] == "sub") ret = (p - *cell).UNSAFE_unverified();
-          else if constexpr (std::is_class_v<T>) ret = (&(p[*cell].a)).UNSAFE_unverified();
-          else ret = (&p[*cell]).UNSAFE_unverified();
+          // wcell: the operand cell is rewritten (to n + 3) before any second read of it
+          if (wrapk == "wcell") watch_begin<N>(cell.UNSAFE_unverified(), static_cast<N>(n + 3));
+          try {
+            if (t[2] == "add") ret = (p + *cell).UNSAFE_unverified();
+            else if (t[2] == "radd") ret = (*cell + p).UNSAFE_unverified();
+            else if (t[2] == "sub") ret = (p - *cell).UNSAFE_unverified();
+            else if constexpr (std::is_class_v<T>) ret = (&(p[*cell].a)).UNSAFE_unverified();
+            else ret = (&p[*cell]).UNSAFE_unverified();
+          } catch (...) { watch_end(); throw; }
+          watch_end();
           out = "OK ret=" + addr_s(ret) + " obj=" + addr_s((const void*)p.UNSAFE_unverified());
         }
       }
@@ -244,7 +276,14 @@ static std::string aidx_one(const std::string& where, I n, const std::string& wr
     auto start = reinterpret_cast<uintptr_t>(&arr);
     uintptr_t el;
     if (wrapk == "plain") el = reinterpret_cast<uintptr_t>(&arr[n]);
-    else { tainted_v<I> tn = n; el = reinterpret_cast<uintptr_t>(&arr[tn]); }
+    else if (wrapk == "tainted") { tainted_v<I> tn = n; el = reinterpret_cast<uintptr_t>(&arr[tn]); }
+    else {
+      auto cell = sbA.malloc_in_sandbox<I>();
+      *cell = n;
+      if (wrapk.rfind("watch:", 0) == 0) watch_begin<I>(cell.UNSAFE_unverified(), parse_int<I>(wrapk.substr(6)));
+      try { el = reinterpret_cast<uintptr_t>(&arr[*cell]); } catch (...) { watch_end(); throw; }
+      watch_end();
+    }
     return "OK off=" + std::to_string(el - start) + " elsz=" + std::to_string(sizeof(arr[0]));
   } else {
     auto parr = sbA.malloc_in_sandbox<El[N]>();
@@ -252,7 +291,16 @@ static std::string aidx_one(const std::string& where, I n, const std::string& wr
     auto& varr = *parr;
     uintptr_t el;
     if (wrapk == "plain") el = reinterpret_cast<uintptr_t>((&varr[n]).UNSAFE_unverified());
-    else { tainted_v<I> tn = n; el = reinterpret_cast<uintptr_t>((&varr[tn]).UNSAFE_unverified()); }
+    else if (wrapk == "tainted") { tainted_v<I> tn = n; el = reinterpret_cast<uintptr_t>((&varr[tn]).UNSAFE_unverified()); }
+    else {
+      // cell / watch:<evil>: the index is an integer in sandbox memory (table[hdr->idx]); with watch the sandbox rewrites it
+      // to <evil> before any second read
+      auto cell = sbA.malloc_in_sandbox<I>();
+      *cell = n;
+      if (wrapk.rfind("watch:", 0) == 0) watch_begin<I>(cell.UNSAFE_unverified(), parse_int<I>(wrapk.substr(6)));
+      try { el = reinterpret_cast<uintptr_t>((&varr[*cell]).UNSAFE_unverified()); } catch (...) { watch_end(); throw; }
+      watch_end();
+    }
     return "OK off=" + std::to_string(el - start) + " elsz=" + std::to_string(sizeof(varr[0]));
   }
 }
